@@ -968,13 +968,25 @@ pub fn c05_special(rec: &mut Rec) {
     let polys: Vec<Vec<Fr381>> = vec![r[..5].to_vec(), r[3..9].to_vec(), r[1..4].to_vec()];
     let eta = rho::<Fr381>(rec.seed, 3);
     let d1 = rho::<Fr381>(rec.seed, 1);
-    for (m, pts) in [(2usize, vec![z1, z2]), (3, vec![z1, z2]), (2, vec![z1, z2, Fr381::one()])] {
+    // value patterns: constant polynomials, a linear one (collinear values), an even one opened at z and -z (equal
+    // values at two points) - claims whose divided differences vanish
+    let even: Vec<Fr381> = vec![r[0], Fr381::zero(), r[1], Fr381::zero(), r[2]];
+    let patterned: Vec<Vec<Fr381>> = vec![vec![r[5]], even, vec![r[6], r[7]]];
+    for (case, m, pts) in [
+        ("generic", 2usize, vec![z1, z2]),
+        ("generic", 3, vec![z1, z2]),
+        ("generic", 2, vec![z1, z2, Fr381::one()]),
+        ("patterned", 2, vec![z1, -z1, z1 * z1]),
+        ("patterned", 3, vec![z1, -z1, z2]),
+        ("patterned", 1, vec![z1, z2, -z1, Fr381::one()]),
+    ] {
+        let polys: &Vec<Vec<Fr381>> = if case == "generic" { &polys } else { &patterned };
         let ps: Vec<&Vec<Fr381>> = polys[..m].iter().collect();
         let comms: Vec<_> = ps.iter().map(|p| ck.commit(p)).collect();
         let evals: Vec<Vec<Fr381>> = ps.iter().map(|p| pts.iter().map(|z| UP::<Fr381>::from_coefficients_slice(p).evaluate(z)).collect()).collect();
         let proof = ck.batch_open_multi_points(&ps, &pts, &eta);
         let k = pts.len();
-        let tid = format!("STR/C05/m={}/k={}", m, k);
+        let tid = if case == "generic" { format!("STR/C05/m={}/k={}", m, k) } else { format!("STR/C05/{}/m={}/k={}", case, m, k) };
         let run = |ev: &Vec<Vec<Fr381>>, pf: &skzg::EvaluationProof<E381>| -> Dec {
             match catch(|| vk.verify_multi_points(&comms, &pts, ev, pf, &eta)) {
                 Ok(Ok(())) => Dec::Acc,
